@@ -227,8 +227,21 @@ def run_configs(run: Run, modname, cfgs, cosim_cycles=16, procs=None, crash_is_v
         outs = [_worker(j) for j in jobs]
     else:
         ctxm = mp.get_context("fork")
+        # results are collected with a HARD limit per configuration: z3 does not always honour its own timeout (a seeded change once
+        # kept one bit-vector query busy for half an hour), and a check must end.  A configuration that does not come back is
+        # undecided (exit 2) - it says nothing about the property.
+        hard_s = float(os.environ.get("VERIF_CONFIG_HARD_S", "1800"))
+        outs = []
         with ctxm.Pool(min(procs, len(jobs))) as pool:
-            outs = pool.map(_worker, jobs, chunksize=1)
+            it = pool.imap(_worker, jobs, chunksize=1)
+            for j in jobs:
+                try:
+                    outs.append(it.next(timeout=hard_s))
+                except mp.TimeoutError:
+                    outs.append({"key": j[2], "cfg": j[1], "results": [], "info": {}, "time": hard_s, "hard_timeout": True})
+                except StopIteration:
+                    outs.append({"key": j[2], "cfg": j[1], "results": [], "info": {}, "time": 0.0, "hard_timeout": True})
+            pool.terminate()
     refused = 0
     for out in outs:
         run.configs += 1
@@ -244,6 +257,8 @@ def run_configs(run: Run, modname, cfgs, cosim_cycles=16, procs=None, crash_is_v
                               {"config": out["cfg"], "native_replay": {"confirmed": True, "how": "constructing this configuration natively raises",
                                                                        "exception": out["refused"][:600]},
                                "replay_cmd": f"./check {run.prop_id} --replay <this file>"}, confirmed=True, key=kf)
+        if out.get("hard_timeout"):
+            run.undecided.append(f"{out['key'][:160]}: the configuration did not come back within the hard limit ({out['time']:.0f} s)")
         if "engine_fault" in out:
             run.engine_faults.append(f"{out['key']}: {out['engine_fault']}")
         if "crash" in out:
